@@ -155,8 +155,39 @@ def run_sim(prog, seed):
     return out
 
 
-def main() -> int:
+def fs_conformance() -> int:
+    """The file-system stand-ins must return what the real functions return (spelling of paths included): a stand-in
+    that is more forgiving than the real function hides defects (the mkdtemp one did until round 13)."""
+    import os
+    import re
+    import shutil
+    import tempfile
+
+    from iosim import fsseam
+
     bad = 0
+    root = os.path.realpath(tempfile.mkdtemp(prefix="verif-conf-", dir="/dev/shm" if os.path.isdir("/dev/shm") else None))
+    try:
+        os.makedirs(os.path.join(root, "m"))
+        os.makedirs(os.path.join(root, "out", "deep"))
+        os.symlink(os.path.join("..", "out", "deep"), os.path.join(root, "m", "lnk"))
+        seam = fsseam.FsSeam(root)
+        sim_tempfile = fsseam.make_tempfile(seam)
+        for d in ("m", "m/lnk/..", "m/./lnk", "m//"):
+            dir_ = os.path.join(root, d)
+            real = tempfile.mkdtemp(prefix=".x.", dir=dir_)
+            sim = sim_tempfile.mkdtemp(prefix=".x.", dir=dir_)
+            shape = lambda p_: (os.path.dirname(p_), os.path.isdir(p_), re.sub(r"\.x\..*", ".x.*", os.path.basename(p_)))  # noqa: E731
+            ok = shape(real) == shape(sim)
+            print(f"fs mkdtemp(dir={d!r}): real={shape(real)} sim={shape(sim)} -> {'OK' if ok else 'MISMATCH'}")
+            bad += 0 if ok else 1
+    finally:
+        shutil.rmtree(root, ignore_errors=True)
+    return bad
+
+
+def main() -> int:
+    bad = fs_conformance()
     for prog in PROGRAMS:
         reals = {repr(run_real(prog)) for _ in range(20)}
         sims = {repr(run_sim(prog, seed)) for seed in range(200)}
